@@ -187,7 +187,7 @@ pub fn required_probes(prop: &str) -> &'static [&'static str] {
         "C05" => &["drops_by_caller", "drops_by_pool", "sweep_injections_fired", "drops_while_panicking"],
         "C10" => &["block_on"],
         "C11" => &["stream_pending", "sweep_injections_fired"],
-        "C12" => &["out_pending", "stream_pending"],
+        "C12" => &["out_pending", "stream_pending", "depth_changes"],
         "C15" => &["panics_injected", "panic_on_pool", "panic_on_caller", "calls_on_panicked"],
         "C16" => &["sweep_injections_fired", "kept_wakers"],
         "C17" => &["pool_threads_spawned"],
